@@ -12,6 +12,10 @@ mod paths;
 mod merkle;
 mod roundtrip;
 mod dedup;
+mod alloc_watch;
+
+#[global_allocator]
+static GLOBAL: alloc_watch::Watch = alloc_watch::Watch;
 mod rng;
 mod t_time_locks;
 mod t_tree_hash;
@@ -52,6 +56,7 @@ fn main() {
         std::process::exit(2);
     }
     match args[1].as_str() {
+        "alloc-child" => alloc_watch::alloc_child(&args[2]),
         "search" => {
             let unit = &args[2];
             let function = &args[3];
@@ -86,6 +91,7 @@ fn main() {
                     "roundtrip_ground" => roundtrip::replay_roundtrip(&v["input"]),
                     "curry_ground" => t_tree_hash::replay_curry(&v["input"]),
                     "dedup_ground" => dedup::replay_dedup(&v["input"]),
+                    "alloc_ground" => alloc_watch::replay_alloc(&v["input"]),
                     "bls_cache_ground" => eval::replay_bls(&v["input"]),
                     "tree_hash_precomputed" => eval::replay_precomputed(&v["input"]),
                     _ => (false, "unknown eval replay".to_string()),
